@@ -145,3 +145,45 @@ package tchannel
 // (blocking, bounded) hand-over to the exchange happens after the lock is given up.
 //@ func (mexset *messageExchangeSet) forwardPeerFrame(frame *Frame) (err error)
 //@   property C05
+
+// Giving up a call -- context cancelled or expired -- runs the cancel hook on
+// the CALLER's goroutine (recvPeerFrame -> onCtxErr -> exchange set's onCancel ->
+// Connection.onCancel): every wait on that path is bounded (no wait for queue space, no
+// wait without a way out), or control does not come back by the deadline. (The cancel frame is offered to the send queue
+// without blocking; a full queue fails the connection instead.)
+//@ funcfield messageExchangeSet.onCancel(id uint32)
+//@   effect bounded
+//@ func (c *Connection) onCancel(msgID uint32)
+//@   effect bounded
+//@   property C05
+//@ func (mex *messageExchange) onCtxErr(err error)
+//@   effect bounded
+//@   property C05
+//@ func (c *Connection) sendMessage(msg message) (err error)
+//@   effect nonblocking
+//@   property C05
+//@ func (c *Connection) connectionError(site string, err error) (out error)
+//@   effect bounded
+//@   property C05
+// ASSUMED (trusted, for C05 callers): stopHealthCheck cancels the health-check
+// goroutine's context and then waits for that goroutine to exit; the
+// goroutine's own waits (ticker, ping) all select on that context, so the wait
+// ends promptly -- a fact about another goroutine the engine cannot derive.
+//@ func (c *Connection) stopHealthCheck()
+//@   trusted
+//@   effect bounded
+//@   modifies nothing
+//@   property C05
+//@ func (c *Connection) close(fields ...LogField) (err error)
+//@   effect bounded
+//@   property C05
+//@ func (c *Connection) checkExchanges()
+//@   effect bounded
+//@   property C05
+//@ func (r *Relayer) countPending() (n uint32)
+//@   effect nonblocking
+//@   property C05
+//@ func (r *Relayer) canClose() (ok bool)
+//@   nilable r
+//@   effect nonblocking
+//@   property C05
